@@ -10,7 +10,7 @@ S=/tmp/seedtest.$$.$id
 rm -rf $S; mkdir -p $S
 git -C /repo worktree add -q --detach $S/repo HEAD || exit 2
 if ! git -C $S/repo apply "$patch"; then echo "PATCH DOES NOT APPLY"; git -C /repo worktree remove --force $S/repo; rm -rf $S; exit 2; fi
-rsync -a --exclude .git --exclude replays /verif/ $S/verif/
+rsync -a --exclude .git --exclude replays ${VERIF_SRC:-/verif}/ $S/verif/
 grep -rl '/repo' $S/verif/harness $S/verif/check $S/verif/tools 2>/dev/null | xargs sed -i "s#/repo#$S/repo#g"
 rm -f $S/verif/build/vharness
 cd $S/verif
